@@ -281,6 +281,43 @@ func checkC02(c *run.Ctx) {
 			c.Sample(map[string]any{"document": rd.Text, "key_kind": kind, "interpolated": interp})
 		}
 	})
+	// Nesting depth: the serialised form nests deeper than the legacy spellings it was parsed from (a bare step list
+	// becomes `steps`, a single plugins mapping a list of one-entry mappings), so a signed pipeline that was accepted
+	// at some depth must be accepted again, and verify, from its own output - at every depth.
+	c.Phase("depth", func() {
+		maxDepth := c.N(80, 400)
+		c.Parallel("depth", maxDepth*3, func(i int, r *rand.Rand) {
+			depth, variant := 1+i/3, i%3
+			open, close := `{"k":`, "}"
+			if variant == 1 {
+				open, close = "[", "]"
+			}
+			nested := strings.Repeat(open, depth) + `"leaf"` + strings.Repeat(close, depth)
+			var text string
+			switch variant {
+			case 2:
+				text = `[{"command":"c","agents":` + nested + `}]`
+			default:
+				text = `[{"command":"c","plugins":{"p#v1":` + nested + `}}]`
+			}
+			kp := all["EdDSA"][0]
+			what, extra, refused := c02Run(c, text, false, kp, 1, nil)
+			c.Eval(1)
+			c.Feature("depth", depth/8, variant)
+			if what != "" {
+				m := map[string]any{"what": fmt.Sprintf("document nested %d levels deep (variant %d): %s", depth, variant, what), "document": clip(text, 1500)}
+				for k, v := range extra {
+					m[k] = v
+				}
+				c.Violation(run.CaseID("depth", i), m)
+				return
+			}
+			if !refused {
+				c.Count("deep_documents_signed_and_verified", 1)
+				c.Max("max_depth_signed_and_verified", int64(depth))
+			}
+		})
+	})
 	c.Finish("exploration",
 		"grammar-generated documents (all step kinds, groups, every plugin/matrix/env/cache shorthand via sweeps, nil vs empty containers incl. `matrix: {}`, short vs canonical plugin sources, non-string scalars in env/matrix/configs, integral floats, big exponents, aliases/merges, Go maps beyond 8 entries) rendered as JSON or YAML are parsed, optionally interpolated, signed with SignSteps (documents with unknown steps must be refused and are counted), marshalled to JSON and YAML three times each (map order), re-parsed through Parse and step by step through CommandStep.UnmarshalJSON, and every command step's signature must verify with the public key and env = pipeline env plus an unrelated variable; command step positions must be unchanged. Four key kinds. distinct_nontrivial counts distinct (key kind, interpolated, feature vector)",
 		nil,
